@@ -244,7 +244,7 @@ class Tr:
                     gap(tg, 'assignment target', self.fn)
             elif isinstance(s, ast.If):
                 new = self.writes(s.body, env) + self.writes(s.orelse, env)
-            elif isinstance(s, ast.For):
+            elif isinstance(s, ast.For) or self.is_freeze(s, env):
                 new = ['h']
             else:
                 new = []
@@ -291,6 +291,8 @@ class Tr:
                     lo, hi = self.bound(tgt.slice.lower, env), self.bound(tgt.slice.upper, env)
                     return ('bind', ['h', nm], ('call', 'a_set_zero', [('var', 'h'), ('var', nm), lo, hi]), nxt(env))
             gap(s, 'unsupported assignment', self.fn)
+        if self.is_freeze(s, env):                                              # x.setflags(write=False)
+            return ('let', ['h'], self.freeze([s], env), nxt(env))
         if isinstance(s, ast.If):
             c = self.typed(s.test, env, 'B')
             ws = self.writes(s.body, env) + [w for w in self.writes(s.orelse, env) if w not in self.writes(s.body, env)]
@@ -321,14 +323,17 @@ class Tr:
                 return ('bind', ['r_'], e, ('some', ('tuple', [('var', 'h'), ('var', 'cache'), ('var', 'r_')])))
         gap(s, 'unsupported statement', self.fn)
 
+    def is_freeze(self, s, env):
+        return isinstance(s, ast.Expr) and isinstance(s.value, ast.Call) and ast.unparse(s.value).endswith('.setflags(write=False)') and \
+            isinstance(s.value.func.value, ast.Name) and env.get(s.value.func.value.id) == 'O'
+
     def freeze(self, stmts, env):
         """statements that only change flags of heap storages, as an expression for the heap afterwards"""
         ir = ('var', 'h')
         for s in reversed(stmts):
             if isinstance(s, ast.If) and not s.orelse:
                 ir = ('let', ['h'], ('if', self.typed(s.test, env, 'B'), self.freeze(s.body, env), ('var', 'h')), ir)
-            elif isinstance(s, ast.Expr) and ast.unparse(s.value).endswith('.setflags(write=False)') and \
-                    isinstance(s.value.func.value, ast.Name) and env.get(s.value.func.value.id) == 'O':
+            elif self.is_freeze(s, env):
                 ir = ('let', ['h'], ('call', 'setflags_ro', [('var', 'h'), ('var', s.value.func.value.id)]), ir)
             else:
                 gap(s, 'unsupported statement in a loop over the result', self.fn)
@@ -591,7 +596,8 @@ def selftest(defs, rng, n=30):
             r = obj.next(c)
             st, h, v = ev(defs['gen_fixed_next'], {'h': h, 'self': st, 'samples': c})[1]
             same(f'FixedWaveform({L}).next({c}) values', read_view(h, v), [int(x) for x in r])
-            same(f'FixedWaveform({L}).next({c}) is a view of the stored waveform', v[0] == 0, bool(np.shares_memory(r, base)))
+            if len(r):                                           # (an empty array shares memory with nothing)
+                same(f'FixedWaveform({L}).next({c}) is a view of the stored waveform', v[0] == 0, bool(np.shares_memory(r, base)))
             same('FixedWaveform.offset', st['offset'], obj.offset)
             if len(r) and r.flags.writeable:                      # the caller owns what it was handed
                 r[0] = -5.0
